@@ -180,3 +180,19 @@ NEUTRALS = [
     M("counter via explicit sum", _SB, "self.n_likelihood_evaluations += len(samples)", "self.n_likelihood_evaluations = self.n_likelihood_evaluations + len(samples)"),
     M("initial draw: trim via explicit slice object", _MC, "samples = samples[:n_samples]", "samples = samples[slice(None, n_samples)]"),
 ]
+
+# functions the property is anchored in (auto-mutant sweep of the thorough tier)
+ANCHORS = [
+    'aspire.samplers.base:Sampler.log_likelihood',
+    'aspire.samplers.importance:ImportanceSampler.sample',
+    'aspire.samplers.mcmc:MCMCSampler.draw_initial_samples',
+    'aspire.samplers.mcmc:MCMCSampler.log_prob',
+    'aspire.samplers.mcmc:Emcee.sample',
+    'aspire.samplers.mcmc:MiniPCN.sample',
+    'aspire.samplers.smc.base:SMCSampler.log_prob',
+    'aspire.samplers.smc.minipcn:MiniPCNSMC.mutate',
+    'aspire.samplers.smc.emcee:EmceeSMC.mutate',
+    'aspire.samplers.smc.blackjax:BlackJAXSMC.log_prob',
+    'aspire.samplers.smc.blackjax:BlackJAXSMC.mutate',
+    'aspire.aspire:Aspire.convert_to_samples',
+]
